@@ -692,6 +692,14 @@ def walk_diff(a, b):
     return out
 
 
+def _dimlink_target_id(dim):
+    """id of the entity a linked dimension reads its ticks / labels from (raises when the link is dangling); reading
+    the values first makes sure the link really yields something"""
+    dl = dim.dimension_link
+    dl.values                      # raises for a dangling link
+    return dl._linked_group().get_attr("entity_id")
+
+
 class Rich:
     """free-form random history on one file through the public API, several live handles per entity"""
 
@@ -819,8 +827,20 @@ class Rich:
         else:
             _, da = self.pick(nixio.DataArray)
             if da is not None:
-                k = rng.randrange(3)
-                if k == 0:
+                k = rng.randrange(4)
+                if k == 3:
+                    # a range dimension linked to a vector of an array of ANY block (dimension links may cross blocks)
+                    cands = [x for _, x in self.all_entities() if isinstance(x, nixio.DataArray) and len(x.shape) >= 1]
+                    if cands:
+                        tgt = rng.choice(cands)
+                        idx = [-1] + [0] * (len(tgt.shape) - 1)
+                        rng.shuffle(idx)
+
+                        def linkdim():
+                            rd = da.append_range_dimension()
+                            rd.link_data_array(tgt, idx)
+                        self.attempt(["append_range_dimension+link", tgt.name, idx], linkdim)
+                elif k == 0:
                     self.attempt(["append_set_dimension"], lambda: da.append_set_dimension(["l1", "é"][:rng.randrange(3)]))
                 elif k == 1:
                     self.attempt(["append_sampled_dimension"],
@@ -892,7 +912,13 @@ class Rich:
             try:
                 eid = e.id
             except Exception:
-                return      # dimension descriptors carry no id: the walk comparison around reopen covers them
+                # dimension descriptors carry no id: the walk comparison around reopen covers them. A linked
+                # dimension writes its label / unit THROUGH to the linked array (that is C05's alias rule), so what
+                # was recorded for arrays under that attribute name is no longer the last value written
+                if name in ("label", "unit"):
+                    for k in [k for k in self.written if k[1] == name]:
+                        del self.written[k]
+                return
             self.written[(eid, name, p)] = val
 
     def link(self):
@@ -1025,6 +1051,23 @@ class Rich:
                     self.fail("a link list still yields a deleted entity (%s)" % when, [p, cname, gone[:3]],
                               "no deleted entity in any list", "deleted")
                     return
+            if cls == "DataArray":
+                try:
+                    dims = list(e.dimensions)
+                except Exception:
+                    dims = []
+                for i, dim in enumerate(dims, 1):
+                    try:
+                        if not getattr(dim, "has_link", False):
+                            continue
+                        tid = _dimlink_target_id(dim)
+                    except Exception:
+                        continue        # a dangling dimension link raises: it does not yield the deleted entity
+                    self.evals += 1
+                    if tid in self.deleted_ids:
+                        self.fail("a dimension link still yields a deleted entity (%s)" % when, [p, "dimension %d" % i, tid],
+                                  "no deleted entity behind any link", "deleted")
+                        return
             for rname in self.ROLE_LINKS.get(cls, ()):
                 try:
                     t = getattr(e, rname)
@@ -1264,8 +1307,28 @@ def fixed_scenarios(ctx):
         other = f.create_section("other", "t")
         b.metadata, g.metadata, a.metadata, tg.metadata = sa, sb, sec, other
         other.link = sa
+        # a dimension of an array of ANOTHER block linked to an array / frame that is deleted afterwards
+        b2 = f.create_block("b2", "t")
+        x = b.create_data_array("x", "t", data=[1.0, 2.0, 3.0])
+        y = b2.create_data_array("y", "t", data=[0.0, 0.0, 0.0])
+        y.append_range_dimension().link_data_array(x, [-1])
+        xid = x.id
+        del b.data_arrays["x"]
         del b.sources["s"]
         del f.sections["sec"]
+
+        def dimlink(ff):
+            d0 = ff.blocks["b2"].data_arrays["y"].dimensions[0]
+            try:
+                return _dimlink_target_id(d0)
+            except Exception as ex:
+                return "raises " + type(ex).__name__
+        for when, ff in (("in the session", f),):
+            got_id = dimlink(ff)
+            if got_id == xid:
+                fails.append(Failure("a dimension (of an array of another block) linked to a deleted array still yields it (%s)"
+                                     % when, {"scenario": "subtree-deletion-several-links", "case": "cross-block dimension link"},
+                                     got_id, "a dangling or removed link", "deleted"))
 
         def seen(ff):
             bb = ff.blocks["b"]
@@ -1291,6 +1354,11 @@ def fixed_scenarios(ctx):
         f.close()
         f = nixio.File.open(path, nixio.FileMode.ReadOnly)
         got2 = seen(f)
+        if dimlink(f) == xid:
+            fails.append(Failure("a dimension (of an array of another block) linked to a deleted array still yields it "
+                                 "(after close + reopen)", {"scenario": "subtree-deletion-several-links",
+                                                            "case": "cross-block dimension link"}, xid,
+                                 "a dangling or removed link", "deleted"))
         for when, gt in (("in the session", got), ("after close + reopen", got2)):
             bad = {k: gt[k] for k in want if gt[k] != want[k] and not str(gt[k]).startswith("raises")}
             if bad:
